@@ -194,6 +194,7 @@ func runC07A(args []string) error {
 	sc := bufio.NewScanner(f)
 	sc.Buffer(make([]byte, 1<<20), 1<<24)
 	i := 0
+	var allCases []c07Case
 	for sc.Scan() {
 		var cs c07Case
 		if err := json.Unmarshal(sc.Bytes(), &cs); err != nil {
@@ -205,6 +206,7 @@ func runC07A(args []string) error {
 		if cs.AvailP == nil {
 			cs.AvailP = []int{}
 		}
+		allCases = append(allCases, cs)
 		// every case with tiny shards (words judged by TLC) and with two further lengths / goroutine counts
 		if err := rsRound(lg, rng, cs, []int{2, 4}[i%2], gs[i%len(gs)], true); err != nil {
 			return err
@@ -220,7 +222,17 @@ func runC07A(args []string) error {
 		}
 		i++
 	}
-	return sc.Err()
+	if err := sc.Err(); err != nil {
+		return err
+	}
+	// second pass: every pattern once more, long after it was first seen and after hundreds of other patterns
+	// (state carried between calls - caches keyed by erasure pattern, pooled buffers - must not leak into a later call)
+	for k := len(allCases) - 1; k >= 0; k-- {
+		if err := rsRound(lg, rng, allCases[k], 6, gs[k%len(gs)], true); err != nil {
+			return err
+		}
+	}
+	return nil
 }
 
 func runC07B(args []string) error {
@@ -490,6 +502,43 @@ func runC07B(args []string) error {
 				if err := rsRoundRows(lg, rng, cs, 72, g, []int{ce + 1}); err != nil {
 					return err
 				}
+			}
+		}
+	}
+	// more distinct erasure patterns than any small cache holds, each visited twice with a fresh coder (12+4: all 495
+	// four-shard erasures of the data, then again in reverse order)
+	for _, coder := range []string{"cauchy", "vandermonde"} {
+		var pats [][]int
+		for a := 1; a <= 12; a++ {
+			for b := a + 1; b <= 12; b++ {
+				for c2 := b + 1; c2 <= 12; c2++ {
+					for d2 := c2 + 1; d2 <= 12; d2++ {
+						pats = append(pats, []int{a, b, c2, d2})
+					}
+				}
+			}
+		}
+		visit := func(miss []int, g int) error {
+			cs := c07Case{Coder: coder, D: 12, P: 4, AvailP: []int{1, 2, 3, 4}, Expect: "none"}
+			m := map[int]bool{}
+			for _, x := range miss {
+				m[x] = true
+			}
+			for i := 1; i <= 12; i++ {
+				if !m[i] {
+					cs.AvailD = append(cs.AvailD, i)
+				}
+			}
+			return rsRound(lg, rng, cs, 4, g, false)
+		}
+		for k, pt := range pats {
+			if err := visit(pt, 1+k%3); err != nil {
+				return err
+			}
+		}
+		for k := len(pats) - 1; k >= 0; k-- {
+			if err := visit(pats[k], 1+k%2); err != nil {
+				return err
 			}
 		}
 	}
